@@ -71,6 +71,18 @@ type ReadCase struct {
 	Skipped   bool    `json:"skipped,omitempty"`
 }
 
+// WriteFailCase: the peer goes away while sideConn.Write calls are under way.
+type WriteFailCase struct {
+	Sizes     []int  `json:"sizes"`     // one Write per entry, a pause between them
+	PeerReads int    `json:"peer_reads"` // messages the peer reads before it drops the connection
+	Ns        []int  `json:"ns"`        // returned n of each Write that was made
+	Failed    bool   `json:"failed"`    // the last Write made returned an error
+	Err       string `json:"err,omitempty"`
+	PeerGot   int    `json:"peer_got"`   // bytes the peer had received
+	PrefixOK  bool   `json:"prefix_ok"`  // and they are a prefix of the bytes written
+	Hung      bool   `json:"hung,omitempty"`
+}
+
 type ReplyCase struct {
 	Cap     int  `json:"cap"`
 	Len     int  `json:"len"`
@@ -121,6 +133,7 @@ type Case struct {
 	Read   *ReadCase  `json:"read,omitempty"`
 	Reply  *ReplyCase `json:"reply,omitempty"`
 	Pipe   *PipeCase  `json:"pipe,omitempty"`
+	WFail  *WriteFailCase `json:"wfail,omitempty"`
 	E2E    *E2ECase   `json:"e2e,omitempty"`
 	Crash  string     `json:"crash,omitempty"`
 }
@@ -253,6 +266,70 @@ func runWrite(r *hx.Rng, big bool, one int) *WriteCase {
 		<-done
 	}
 	c.ContentOK = bytes.Equal(sent, got)
+	return c
+}
+
+// ---- write-failure stream ----
+
+func runWriteFail(r *hx.Rng) *WriteFailCase {
+	c := &WriteFailCase{PeerReads: r.Intn(6), Ns: []int{}}
+	for i, n := 0, 3+r.Intn(6); i < n; i++ {
+		c.Sizes = append(c.Sizes, []int{4096, 10000, 65536, 300000}[r.Intn(4)])
+	}
+	p, err := newWSPair()
+	if err != nil {
+		c.Err = "setup:" + err.Error()
+		return c
+	}
+	defer p.close()
+	sc := sniproxy.VerifNewSideConn(p.client, "")
+	sc.SetDeadline(time.Now().Add(bound))
+	var got []byte
+	peerDone := make(chan struct{})
+	go func() {
+		defer close(peerDone)
+		p.server.SetReadDeadline(time.Now().Add(bound))
+		for i := 0; i < c.PeerReads; i++ {
+			_, data, err := p.server.ReadMessage()
+			if err != nil {
+				return
+			}
+			got = append(got, data...)
+		}
+		p.server.UnderlyingConn().Close() // the peer is gone
+	}()
+	var sent []byte
+	seed := r.U64()
+	for i, n := range c.Sizes {
+		data := pattern(seed+uint64(i), n)
+		k, err := sc.Write(data)
+		c.Ns = append(c.Ns, k)
+		if k >= 0 && k <= len(data) {
+			sent = append(sent, data[:k]...)
+		}
+		if err != nil {
+			c.Failed = true
+			c.Err = err.Error()
+			if ne, ok := err.(net.Error); ok && ne.Timeout() {
+				c.Hung = true
+			}
+			break
+		}
+		time.Sleep(3 * time.Millisecond) // lets the reset arrive
+	}
+	<-peerDone
+	c.PeerGot = len(got)
+	// what the peer got is a prefix of everything handed to Write (not only of
+	// the counted bytes: a failing Close leaves the last message's fate open)
+	var all []byte
+	for i, n := range c.Sizes {
+		all = append(all, pattern(seed+uint64(i), n)...)
+	}
+	c.PrefixOK = len(got) <= len(all) && bytes.Equal(got, all[:len(got)])
+	if len(c.Err) > 60 {
+		c.Err = c.Err[:60]
+	}
+	_ = sent
 	return c
 }
 
@@ -473,7 +550,7 @@ func runReply(r *hx.Rng) *ReplyCase {
 func runPipe(r *hx.Rng) *PipeCase {
 	c := &PipeCase{Chunks: []int{}}
 	for i, n := 0, 1+r.Intn(5); i < n; i++ {
-		c.Writes = append(c.Writes, []int{1, 5, 100, 4096, 32768, 40000}[r.Intn(6)])
+		c.Writes = append(c.Writes, []int{0, 1, 5, 100, 4096, 32768, 40000}[r.Intn(7)])
 	}
 	for i, n := 0, 1+r.Intn(4); i < n; i++ {
 		c.Reads = append(c.Reads, []int{1, 3, 64, 4096, 32768, 100000}[r.Intn(6)])
@@ -681,7 +758,7 @@ func genSplits(r *hx.Rng) []int {
 	case 1:
 		return []int{[]int{1000, 4096, 4097, 32768, 65536}[r.Intn(5)]}
 	case 2:
-		return []int{1, 1, 1, 3, 4096, 100000}
+		return []int{1, 0, 1, 1, 3, 0, 4096, 100000} // with zero-length Writes
 	default:
 		var s []int
 		for i, n := 0, 1+r.Intn(6); i < n; i++ {
@@ -835,7 +912,7 @@ type spec struct {
 	big    bool
 }
 
-func plan(seed uint64, n, e2eN int, big bool) []spec {
+func plan(seed uint64, n, e2eN int, big, huge bool) []spec {
 	r := hx.NewRng(seed)
 	var ss []spec
 	// corpus first: the boundary sizes in every mode
@@ -845,6 +922,10 @@ func plan(seed uint64, n, e2eN int, big bool) []spec {
 		}
 		if big {
 			ss = append(ss, spec{stream: "e2e", seed: r.U64(), mode: mode, a: 1<<20 + 3, b: 1<<20 + 3})
+		}
+		if huge {
+			ss = append(ss, spec{stream: "e2e", seed: r.U64(), mode: mode, a: 4<<20 + 1, b: 16<<20 + 5})
+			ss = append(ss, spec{stream: "e2e", seed: r.U64(), mode: mode, a: 16<<20 + 5, b: 4<<20 + 1})
 		}
 	}
 	for i := 0; i < e2eN; i++ {
@@ -860,6 +941,8 @@ func plan(seed uint64, n, e2eN int, big bool) []spec {
 			ss = append(ss, spec{stream: "write", seed: r.U64()})
 		case c < 14:
 			ss = append(ss, spec{stream: "read", seed: r.U64()})
+		case c < 15:
+			ss = append(ss, spec{stream: "wfail", seed: r.U64()})
 		case c < 17:
 			ss = append(ss, spec{stream: "reply", seed: r.U64()})
 		default:
@@ -906,6 +989,14 @@ func runSpec(i int, s spec) (c Case) {
 		if c.Read.Ended == "timeout" {
 			hungStream["read"]++
 		}
+	case "wfail":
+		if hungStream["wfail"] >= 3 {
+			return c
+		}
+		c.WFail = runWriteFail(r)
+		if c.WFail.Hung {
+			hungStream["wfail"]++
+		}
 	case "reply":
 		c.Reply = runReply(r)
 	case "pipe":
@@ -946,6 +1037,7 @@ func main() {
 	n := flag.Int("n", 300, "number of cases")
 	e2eN := flag.Int("e2e", 30, "number of generated end-to-end cases (after the corpus)")
 	big := flag.Bool("big", false, "include the 1 MiB + 3 payloads end to end")
+	huge := flag.Bool("huge", false, "include 4 MiB + 1 and 16 MiB + 5 payloads end to end")
 	child := flag.Bool("child", false, "child mode")
 	from := flag.Int("from", 0, "first case (child)")
 	mem := flag.Uint64("mem", 8<<30, "address-space limit of the child")
@@ -953,7 +1045,7 @@ func main() {
 	e2e.Quiet()
 	_ = hex.EncodeToString
 
-	ss := plan(*seed, *n, *e2eN, *big)
+	ss := plan(*seed, *n, *e2eN, *big, *huge)
 	out := hx.NewOut(os.Stdout)
 	if *child {
 		hx.LimitMemory(*mem)
@@ -969,6 +1061,9 @@ func main() {
 	args := []string{"-seed", strconv.FormatUint(*seed, 10), "-n", strconv.Itoa(*n), "-e2e", strconv.Itoa(*e2eN)}
 	if *big {
 		args = append(args, "-big")
+	}
+	if *huge {
+		args = append(args, "-huge")
 	}
 	err := hx.RunIsolated(len(ss), args, *mem,
 		func(i int, raw []byte) { os.Stdout.Write(append(raw, '\n')) },
